@@ -257,7 +257,7 @@ def __order_clauses(c: Formula) -> int:
     if isinstance(c, And) or isinstance(c, Or):
         return 0
     elif isinstance(c, Not):
-        return c.c
+        return __order_clauses(c.c)
     else:
         return c
 
